@@ -233,10 +233,10 @@ theorem indexValue_nonrigid {u i : GoVal} (_hu : Unw u) (hi : rigidHead i = fals
   · rw [mapSliceFind_nonrigid hi hnd, mapSliceFind_nonrigid (i := canonIdx) rfl rfl]
   · cases i <;> simp [rigidHead, noDrop] at hi hnd <;> simp [canonIdx]
   · cases i <;> simp [rigidHead, noDrop] at hi hnd <;> simp [canonIdx]
-  · rfl
-  · rfl
-  · rfl
-  · rfl
+  · cases i <;> simp [rigidHead, noDrop] at hi hnd <;> simp [methodOnly, canonIdx]
+  · cases i <;> simp [rigidHead, noDrop] at hi hnd <;> simp [methodOnly, canonIdx]
+  · cases i <;> simp [rigidHead, noDrop] at hi hnd <;> simp [methodOnly, canonIdx]
+  · cases i <;> simp [rigidHead, noDrop] at hi hnd <;> simp [methodOnly, canonIdx]
   · rfl
 
 /-- the same receiver, related indices -/
